@@ -7,6 +7,10 @@ RULE = ("same texts as C01; for every accepted text the projected tree of each f
 
 def run(ctx):
     parsecheck.run_parse(ctx, {"corpus", "mutants", "gen", "dates", "doc"}, {"tree"})
+    # the value, key and key-path entry points on the value texts of the generator
+    h = ctx.build(features=("preserve_order",))
+    vp = parsecheck.value_texts(ctx, ctx.path("gen.ndjson"))
+    parsecheck.process_inputs(ctx, h, [("values", vp)], {"value-tree", "key-tree", "keypath-tree"}, "value-events")
     return ctx.finish("model_checking", RULE)
 
 
